@@ -119,6 +119,18 @@ def run_case(case, ctx):
 
         if not consistent("fit"):
             return
+        # samples stored with an integer dtype (counts, pixel values) are contracted with the same float weights
+        ctx.count("clause/predict-integer-samples")
+        Xi = rs.randint(-3, 4, size=[int(rs.randint(1, 6))] + fshape).astype(gen.choice(rs, ["int64", "int32", "uint8"]))
+        Xi = np.abs(Xi) if Xi.dtype == np.uint8 else Xi
+        Wt_ = np.asarray(est.weight_tensor_)
+        pred = np.asarray(est.predict(Xi))
+        want, wabs = ref.es("a%s,%s%s->a%s" % (fs, fs, os_, os_), Xi.astype(np.float64), Wt_)
+        ok, worst = tol.formula_close(pred, want, wabs, eps, int(np.prod(fshape)))
+        if not ok:
+            viol("predict-equals-contraction", cls + "+integer-samples", "predict(X) for X of dtype %s differs from <X_i, weight_tensor_> (err/bound %.3g)" % (Xi.dtype, worst),
+                 {"desc": desc, "got": pred, "want": want})
+            return
         if (case["idx"] // 3) % 2 == 0:
             # an estimator that was fitted and whose re-fit is aborted part-way (a failing linear solve, an interrupt) is still "after
             # fitting": whatever it exposes must still agree with itself
